@@ -724,7 +724,7 @@ func (t *TNC) fireGroup(sc *scriptCtx, i int) {
 		// hands over the data before it announces the disconnect; keep that
 		// causality visible to the host: wait for the other socket to drain.
 		for _, e := range group {
-			if e.Kind == "arq" {
+			if e.Kind == "arq" && !t.plan.EarlyData {
 				c := sc.conn
 				if c == nil {
 					c = t.cur
